@@ -361,17 +361,8 @@ def K1(inp, k, first=None):
     tab = _lock_table(inp, A, now, U)
     B._ReplLockManagerImpl__locks = dict(tab)
     cmdsl = [_lock_cmd(inp, i, B, now, first if i == 0 else None) for i in range(k)]
-    # one client's commands reach the log in the order it issued them (one queue, FIFO forwarding), so the timestamps
-    # of a client never run backwards -- neither among its commands nor against lock times it already wrote
-    for i, (op, c, l, t, r) in enumerate(cmdsl):
-        if op == 'release':
-            continue
-        for ll, (hc, ht) in tab.items():
-            if hc == c:
-                inp.assume(t >= ht)
-        for (op2, c2, l2, t2, r2) in cmdsl[:i]:
-            if c2 == c and op2 != 'release':
-                inp.assume(t >= t2)
+    # (the commands of one client do NOT reach the log in the order it issued them when leaders change in between: a forwarded
+    # command can wait in a candidate's queue and be appended after a later one - timestamps of a client may run backwards)
     cl = {'commands_do_not_raise': len(EXC) == 0}
     for l in LOCKS:
         for a in CLIENTS:
@@ -406,7 +397,10 @@ def K3(inp):
     if op == 'acquire':
         free = old is None or bool(Or(t - old[1] > U, old[0] == c)) if old is not None else True
         cl['acquire_result'] = (r is True) == bool(free)
-        cl['acquire_effect'] = (post.get(l) is not None and post[l][0] == c and bool(Eq(post[l][1], t))) if r else _same_tab(post, tab)
+        # a lease never moves backwards: the holder's own (possibly overtaken) command keeps the later of the two instants
+        keep_old = old is not None and old[0] == c and not bool(t - old[1] > U)
+        new_t = core.Max(old[1], t) if keep_old else t
+        cl['acquire_effect'] = (post.get(l) is not None and post[l][0] == c and bool(Eq(post[l][1], new_t))) if r else _same_tab(post, tab)
         cl['other_locks_untouched'] = all(_entry_eq(post.get(x), tab.get(x)) for x in LOCKS if x != l)
     elif op == 'release':
         if old is not None and old[0] == c:
@@ -425,7 +419,7 @@ def K3(inp):
                 if x not in post:
                     cl['prolong_%s_deleted_only_if_expired' % x] = expired
                 else:
-                    cl['prolong_%s_kept' % x] = And(Not(expired), post[x][0] == o[0], Eq(post[x][1], Ite(mine, t, o[1])))
+                    cl['prolong_%s_kept' % x] = And(Not(expired), post[x][0] == o[0], Eq(post[x][1], Ite(mine, core.Max(t, o[1]), o[1])))
     for x in LOCKS:
         for cc in CLIENTS:
             e = post.get(x)
@@ -669,7 +663,15 @@ class _TableAdapter:
     def __init__(self, impl, release_lost):
         self.impl, self.release_lost, self.released = impl, release_lost, []
 
+    open_outcome = False
+
     def acquire(self, lockID, clientID, t, callback=None, sync=False, timeout=None):
+        if self.open_outcome:
+            # the leader fell after it had stored the command: the submitter is told LEADER_CHANGED (outcome open), the command
+            # commits under the next leader all the same
+            callback(None, 5)
+            self.impl.acquire(lockID, clientID, t, _doApply=True)
+            return
         res = self.impl.acquire(lockID, clientID, t, _doApply=True)
         if sync:
             return res
@@ -687,7 +689,7 @@ class _TableAdapter:
         return self.impl.isAcquired(lockID, clientID, t)
 
 
-@obligation('K5', props=('C16',), quick=[dict(mode='async'), dict(mode='sync')],
+@obligation('K5', props=('C16',), quick=[dict(mode='async'), dict(mode='sync'), dict(mode='open_outcome')],
             stubs=('batteries.time=FakeTime (symbolic instants)', 'manager built with object.__new__ (no thread); its prolongation rounds are performed by the harness exactly as the thread body does', 'commands are committed at once on the real _ReplLockManagerImpl; the undo-release may be lost'),
             bounds='auto-unlock time U, attempt and commit instants symbolic Reals with U/2 < delay <= U; 6 prolongation rounds U/4 apart afterwards; the undo-release arrives or is lost')
 def K5(inp, mode):
@@ -697,10 +699,11 @@ def K5(inp, mode):
     U = inp.real('U', 0, lo_strict=True)
     t0 = inp.real('t_attempt', 0)
     t1 = inp.real('t_committed', 0)
-    inp.assume(And(t1 - t0 > U / 2, t1 - t0 <= U))
-    lost = inp.flag('release_lost')
+    inp.assume(And(t1 - t0 > U / 2, t1 - t0 <= U) if mode != 'open_outcome' else t1 >= t0)
+    lost = inp.flag('release_lost') if mode != 'open_outcome' else False
     impl = bt._ReplLockManagerImpl(U)
     tab = _TableAdapter(impl, lost)
+    tab.open_outcome = mode == 'open_outcome'
     real_time = bt.time
     bt.time = _FakeTime([t0, t1])
     got = []
@@ -726,9 +729,10 @@ def K5(inp, mode):
     finally:
         bt.time = real_time
     cl = {'no_exception': exc is None}
-    cl['told_it_failed'] = res is False
-    cl['undo_release_sent'] = len(tab.released) == 1
+    cl['told_it_failed'] = res is not True
+    if mode != 'open_outcome':
+        cl['undo_release_sent'] = len(tab.released) == 1
     cl['does_not_keep_the_lock'] = Not(still)
     cl['obtainable_by_others_after_auto_unlock_time'] = y_gets
     return Res(cl, nontrivial=True, obs=lambda: dict(mode=mode, lost=lost, res=show(res), still=show(still), y=show(y_gets), released=tab.released, exc=show(exc)),
-               vars=dict(release_lost=1 if lost else 0))
+               vars=dict(release_lost=1 if lost else 0, open_outcome=1 if mode == 'open_outcome' else 0))
